@@ -143,7 +143,7 @@ func caseVariants(q string) []string {
 func TestC19(t *testing.T) {
 	env := kit.GetEnv()
 	rep := kit.NewReport("C19", env)
-	rep.Rule = "for every name of a 15-name alphabet (2 built-in, 2 forbidden, 5 ordinary incl. labels ending in letters of the suffix, sub-name and mixed-case/trailing-dot config spelling, IDN, 5 non-.myco/edge) x every subset of {resolve entry, friend} holding it x every history of <= D mapping operations (save ip1/ip2, delete, on the name and on an unrelated name): every query = case variant x trailing dot x qtype in {A,AAAA,SVCB,HTTPS,ANY,TXT,MX,0,65535} x qclass in {IN,ANY,CH,NONE,0} x question count {0,1,2}, through the real ServeDNS and Lookup, compared with the reference precedence function; the same server is also queried before and after every single operation of the history, and for 9 neighbour names of the name (label plus/minus characters, sub- and super-names) which must give a name error; non-trivial = at least two sources hold the name or the query must be refused; states = distinct (config subset, mapping store content); distinct = distinct (state, query)"
+	rep.Rule = "for every name of a 15-name alphabet (2 built-in, 2 forbidden, 5 ordinary incl. labels ending in letters of the suffix, sub-name and mixed-case/trailing-dot config spelling, IDN, 5 non-.myco/edge) x every subset of {resolve entry, friend (second friend name of a router that has another one)} holding it x every history of <= D mapping operations (save ip1/ip2, delete, on the name and on an unrelated name): every query = case variant x trailing dot x qtype in {A,AAAA,SVCB,HTTPS,ANY,TXT,MX,0,65535} x qclass in {IN,ANY,CH,NONE,0} x question count {0,1,2}, through the real ServeDNS and Lookup, compared with the reference precedence function; the same server is also queried before and after every single operation of the history, and for 9 neighbour names of the name (label plus/minus characters, sub- and super-names) which must give a name error; non-trivial = at least two sources hold the name or the query must be refused; states = distinct (config subset, mapping store content); distinct = distinct (state, query)"
 	rep.Assumptions = []string{
 		"friend names in the configuration are lower case (the statement does not define matching of mixed-case friend names)",
 		"queries reach the server as parsed DNS messages (miekg/dns does the wire parsing)",
@@ -197,7 +197,8 @@ func TestC19(t *testing.T) {
 					st.ResolveConfig = map[string]string{nc.cfgName: ipResolve.String()}
 				}
 				if hasFriend {
-					st.FriendConfigs = []config.FriendConfig{{Name: strings.TrimSuffix(nc.query, ".myco"), IP: ipFriend.String()}}
+					// the router behind the name is also known under another friend name, listed first.
+					st.FriendConfigs = []config.FriendConfig{{Name: "first-name-of-the-same-router", IP: ipFriend.String()}, {Name: strings.TrimSuffix(nc.query, ".myco"), IP: ipFriend.String()}}
 				}
 				node, err := kit.NewNode(kit.NodeOpts{Name: "R", ID: pool[0], Store: st, StateOnly: true})
 				if err != nil {
